@@ -174,6 +174,15 @@ def gen_case(rng: random.Random, size: int = 2, label: str = "rand", directed: b
     and two or more plugins whose hooks do not commute (ShorterResults / ClientForwardRefs)."""
     nm = Names(rng)
     enums = [nm.fresh("enum") for _ in range(rng.randint(2, 2 + 2 * size))]
+    # two enums whose names tie on isort's key (they differ only in letter case): every import list they reach
+    # TOGETHER keeps its source order through isort, so a list that is deterministic today shows at once when it
+    # starts to come out of a set (and the set-fed lists of finding C10-F2 show as that finding)
+    twins: Optional[Tuple[str, str]] = None
+    if directed or rng.random() < 0.3:
+        mid = rng.choice(LETTERS).upper() + rng.choice(LETTERS)
+        twins = ("Os" + mid + "Type", "OS" + mid + "Type")
+        nm.used.add(twins[0].lower())
+        enums += list(twins)
     scalars = [nm.fresh("type") for _ in range(rng.randint(1, 1 + size))]
     ifaces = [nm.fresh("type") for _ in range(rng.randint(1, 2))]
     objs = [nm.fresh("type") for _ in range(rng.randint(3, 3 + 2 * size))]
@@ -196,8 +205,12 @@ def gen_case(rng: random.Random, size: int = 2, label: str = "rand", directed: b
     obj_ifaces: Dict[str, List[str]] = {}
     for o in objs:
         impl = [i for i in ifaces if rng.random() < 0.45]
+        if directed and objs.index(o) < 3 and ifaces[0] not in impl:
+            impl.append(ifaces[0])  # an interface with three implementing types
         obj_ifaces[o] = impl
         fs: List[Tuple[str, str, str]] = [("id", "ID!", "ID")]
+        if twins and o == objs[0]:
+            fs += [("twinA", twins[0], twins[0]), ("twinB", wrap_type(rng, twins[1]), twins[1])]
         for i in impl:
             for n, t in iface_fields[i]:
                 if n not in [f[0] for f in fs]:
@@ -364,6 +377,26 @@ def gen_case(rng: random.Random, size: int = 2, label: str = "rand", directed: b
         vars_ = ", ".join(f"${a}: {at}" for a, at in args)
         call = ", ".join(f"{a}: ${a}" for a, _ in args)
         ops.append(f"query {opn}" + (f"({vars_})" if args else "") + f" {{ {n}" + (f"({call})" if args else "") + " { " + " ".join(sel) + " } }")
+    def op_on(t: str, body: str) -> str:
+        n, _, _, args = next(q for q in qfields if q[2] == t)
+        vars_ = ", ".join(f"${a}: {at}" for a, at in args)
+        call = ", ".join(f"{a}: ${a}" for a, _ in args)
+        return f"query {nm.fresh('op')}" + (f"({vars_})" if args else "") + f" {{ {n}" + (f"({call})" if args else "") + " { " + body + " } }"
+
+    if twins:  # both tied enums in ONE result module, selected directly (no fragment in between)
+        ops.append(op_on(objs[0], "twinA id twinB"))
+    for i in ifaces:
+        impls = [o for o in objs if i in obj_ifaces[o]]
+        if len(impls) >= 2 and (directed or rng.random() < 0.35):
+            # an abstract field whose selection reaches its implementing types ONLY through named fragments
+            # declared on them (no inline fragment): the classes / Union members of the field come from those fragments
+            parts = []
+            for o in rng.sample(impls, min(len(impls), rng.randint(2, 3))):
+                fname = nm.fresh("frag")
+                frags[fname] = f"fragment {fname} on {o} {{ id {rng.choice(leaf_fields(o))} }}"
+                parts.append("..." + fname)
+            ops.append(op_on(i, "__typename id " + " ".join(parts)))
+    interface_fragment_ops = sum(1 for o_ in ops if "__typename id ..." in o_)
     docs = list(frags.values()) + ops
     rng.shuffle(docs)
     if rng.random() < 0.3:
@@ -397,7 +430,7 @@ def gen_case(rng: random.Random, size: int = 2, label: str = "rand", directed: b
         if rng.random() < p:
             cfg[key] = val
     return {"id": label, "strategy": "client", "schema": schema, "queries": queries, "config": cfg,
-            "meta": {"fragments": len(frags), "operations": len(ops), "enums": len(enums), "objects": len(objs), "directed": int(directed),
+            "meta": {"fragments": len(frags), "operations": len(ops), "enums": len(enums), "objects": len(objs), "directed": int(directed), "tied_enums": int(bool(twins)), "abstract_via_named_fragments": interface_fragment_ops,
                      "family": len(family) if family_obj is not None else 0, "plugins": len(plugins),
                      "union_members": max(len(m) for m in union_members.values()), "schema_files": len(schema) if isinstance(schema, dict) else 1,
                      "multi_dep_fragments": sum(1 for t in frags.values() if t.count("...") - t.count("... on") >= 2)}}
@@ -567,6 +600,34 @@ def _tie_in_text(text: str) -> bool:
     return False
 
 
+def _reordered_imports(ta: str, tb: str, fname: str) -> List[Tuple[str, int, str]]:
+    """(file, level, module) of every from-import whose list of names differs between the two texts"""
+
+    def table(text: str) -> Dict[Tuple[int, str], List[List[str]]]:
+        out: Dict[Tuple[int, str], List[List[str]]] = {}
+        for node in ast.walk(ast.parse(text)):
+            if isinstance(node, ast.ImportFrom):
+                out.setdefault((node.level, node.module or ""), []).append([x.name for x in node.names])
+        return out
+
+    try:
+        x, y = table(ta), table(tb)
+    except SyntaxError:
+        return [(fname, -1, "?")]
+    return [(fname, k[0], k[1]) for k in sorted(set(x) | set(y)) if x.get(k) != y.get(k)]
+
+
+def _known_set_fed_site(case: Dict[str, Any], fname: str, level: int, module: str) -> bool:
+    """the import lists that come out of a set on the UNCHANGED tree (Model/OrderEmit.lean `trigIsortTie`, Proofs/OrderPlugins):
+    everything in fragments.py (statements of all fragment generators merged in set-iteration order), `from .fragments import`
+    anywhere (mixins of an operation, public names in __init__.py), and the client module (ClientForwardRefs / ShorterResults)"""
+    cfg = case.get("config") or {}
+    frag = cfg.get("fragments_module_name", "fragments")
+    client = cfg.get("client_file_name", "client")
+    base = fname.rsplit("/", 1)[-1]
+    return base == frag + ".py" or base == client + ".py" or (level == 1 and module == frag)
+
+
 def classify(case: Dict[str, Any], a: Dict[str, str], b: Dict[str, str], phase: str) -> Tuple[str, Optional[str], str]:
     """(signature, trigger, detail) for two snapshots (file -> TEXT) that should have been identical"""
     if "error" in a or "error" in b:
@@ -584,6 +645,11 @@ def classify(case: Dict[str, Any], a: Dict[str, str], b: Dict[str, str], phase: 
         if phase == "again" and case_trigger_own(case) and all(sorted(l for l in a[k].splitlines() if l.strip()) == sorted(l for l in b[k].splitlines() if l.strip()) for k in py):
             return SIG_OWN, TRIG_OWN, detail
         if all(_tie_in_text(a[k]) for k in py) and all(sorted(re.findall(r"\w+", a[k])) == sorted(re.findall(r"\w+", b[k])) for k in py):
+            # finding C10-F2 is the tie at the import lists that ARE fed from a set on the unchanged tree; the same
+            # mechanism at any other import list is a new defect and must not be swallowed as known
+            new_sites = [site for k in py for site in _reordered_imports(a[k], b[k], k) if not _known_set_fed_site(case, *site)]
+            if new_sites:
+                return "tied-import-names-reordered-at-new-site", None, f"sites={new_sites[:4]} " + detail
             return SIG_TIE, TRIG_TIE, detail
         return "import-order-differs", None, detail
     return "bytes-differ", None, detail
@@ -1697,6 +1763,10 @@ def oracle(ctx: Ctx, res: Result, label: str = "oracle", n_seeds: Optional[int] 
             res.count(f"{label}:cases-with-fragment-family")
         if c["meta"]["plugins"] >= 2:
             res.count(f"{label}:cases-with-2+-plugins")
+        if c["meta"]["tied_enums"]:
+            res.count(f"{label}:cases-with-tied-enum-names")
+        if c["meta"]["abstract_via_named_fragments"]:
+            res.count(f"{label}:cases-with-abstract-field-via-named-fragments")
         for p in (c["config"].get("plugins") or []):
             res.count(f"{label}:plugin:" + p.rsplit(".", 1)[1])
         res.count(f"{label}:comments:" + c["config"]["include_comments"])
